@@ -280,6 +280,13 @@ func afPrelude() []afCase {
 		cred("redeem", "POST", Q("client_id", "wrong"), Q("client_id", afProxyID, "client_secret", afProxySecret), nil, func(s *afStep) { s.Code = "genuine" }),
 		cred("redeem", "POST", nil, Q("client_id", "wrong", "client_id", afProxyID, "client_secret", afProxySecret), nil, func(s *afStep) { s.Code = "genuine" }),
 		cred("redeem", "GET", Q("client_id", afProxyID, "client_secret", afProxySecret), nil, nil, func(s *afStep) { s.Code = "genuine" }),
+		// the right secret with a wrong, differently-cased, duplicated or empty client id: nothing happens, nothing is revealed
+		cred("refresh", "POST", nil, Q("client_id", "someone-else", "client_secret", afProxySecret, "refresh_token", "rt"), nil, nil),
+		cred("refresh", "POST", nil, Q("client_id", strings.ToUpper(afProxyID), "client_secret", afProxySecret, "refresh_token", "rt"), nil, nil),
+		cred("validate", "GET", Q("client_id", "someone-else"), nil, H("X-Client-Secret", afProxySecret, "X-Access-Token", "at"), nil),
+		cred("profile", "GET", Q("client_id", "someone-else", "email", "ann@x.io", "groups", "eng"), nil, H("X-Client-Secret", afProxySecret, "X-Access-Token", "at"), nil),
+		cred("redeem", "POST", nil, Q("client_id", "someone-else", "client_secret", afProxySecret), nil, func(s *afStep) { s.Code = "genuine" }),
+		cred("redeem", "POST", nil, Q("client_id", strings.ToUpper(afProxyID), "client_secret", afProxySecret), nil, func(s *afStep) { s.Code = "genuine" }),
 		cred("refresh", "POST", nil, Q("client_id", afProxyID, "client_secret", afProxySecret, "refresh_token", "rt"), nil, nil),
 		cred("refresh", "POST", nil, Q("client_id", afProxyID, "client_secret", afProxySecret), nil, nil),
 		cred("refresh", "POST", nil, Q("client_id", afProxyID, "client_secret", "nope", "refresh_token", "rt"), nil, nil),
